@@ -34,7 +34,7 @@ META = dict(
          'non-trivial = LP feasible and bounded (exact) and all identities decided; distinct by name',
     bounds='<= 4 variables in 1-2 arrays, <= 4 constraint arrays of <= 3 rows mixing <=, >=, ==, bounds on whole '
            'arrays and on slices (at most one upper and one lower bound constraint per entry, as the property states), '
-           'min and max',
+           'min and max; build histories: formulation or solve when only a prefix of the constraint objects exists',
     outside='degenerate duals are covered (any KKT point); models with convex atoms (dual() is stated for linear models)',
     assumptions=['KKT convention of the interfaces: c = A\'pi + upi + lpi, pi <= 0 (<= rows), upi <= 0 <= lpi (min)',
                  'scipy sparse @ object arrays is not used by dual(); no stub needed'],
@@ -94,8 +94,16 @@ def gen(rnd, i):
     for k, c in enumerate(cons):
         # every third constraint is written as a 2-D expression (column or row matrix): dual() must come back in that shape
         c['shape2d'] = [None, 'col', 'row'][(i + k) % 3]
-    return dict(name='lp%d' % i, n1=n1, n2=n2, cons=cons, bnds=bnds, c=[g() for _ in range(n)],
+    spec = dict(name='lp%d' % i, n1=n1, n2=n2, cons=cons, bnds=bnds, c=[g() for _ in range(n)],
                 sense=rnd.choice(['min', 'max']), front=['ro', 'lp', 'ro-wc'][i % 3], order=['obj_last', 'obj_first'][(i // 2) % 2])
+    # build histories: the model is formulated (or solved) when only the first `mid` constraint objects exist, the others
+    # are added afterwards - dual() must still read the rows of ITS constraint in the program compiled last
+    hist = [None, 'formulate', None, 'resolve', None, 'formulate', 'resolve'][i % 7]
+    if hist and len(cons) + len(bnds) >= 2:
+        spec['hist'] = hist
+        spec['mid'] = 1 + (i // 7) % (len(cons) + len(bnds) - 1)
+        spec['order'] = 'obj_first'
+    return spec
 
 
 def cases(tier, seed, rnd):
@@ -125,6 +133,19 @@ def build(spec):
     if spec.get('order') == 'obj_first':
         objective()
     objs = []
+    added = [0]
+
+    def step():
+        added[0] += 1
+        if spec.get('hist') and added[0] == spec.get('mid'):
+            with quiet():
+                if spec['hist'] == 'formulate':
+                    m.do_math()
+                else:
+                    try:
+                        m.solve(display=False)
+                    except Exception:  # noqa  (the intermediate model may be unbounded or infeasible)
+                        m.do_math()
     for c in spec['cons']:
         A = np.array(c['A'], dtype=float)
         e = A[:, :n1] @ x
@@ -136,6 +157,7 @@ def build(spec):
             e, b = e.reshape(shp), b.reshape(shp)
         con = (e <= b) if c['s'] == 'le' else ((e >= b) if c['s'] == 'ge' else (e == b))
         objs.append(m.st(con))
+        step()
     bobjs = []
     for b in spec['bnds']:
         v = x if b['arr'] == 'x' else y
@@ -150,6 +172,7 @@ def build(spec):
         val = np.array(b['v'], dtype=float) if isinstance(b['v'], list) else b['v']
         con = (tgt <= val) if b['t'] == 'U' else (tgt >= val)
         bobjs.append(m.st(con))
+        step()
     if spec.get('order') != 'obj_first':
         objective()
     return m, x, y, objs, bobjs
